@@ -336,6 +336,10 @@ def replay_valid(p):
         elif what == 'povm':
             Es = R.rand_povm(p['d'], p['nt'], seed=seed)
             bad = np.abs(Es.sum(axis=0) - np.eye(p['d'])).max() > 1e-8 or any(np.linalg.eigvalsh((E_ + E_.conj().T) / 2).min() < -1e-8 or np.abs(E_ - E_.conj().T).max() > 1e-8 for E_ in Es)
+        elif what == 'herm_eig':
+            Hm = R.rand_hermitian_matrix(p['d'], eig=(p['a'], p['b']), seed=seed)
+            ev = np.linalg.eigvalsh((Hm + Hm.conj().T) / 2)
+            bad = np.abs(Hm - Hm.conj().T).max() > 1e-8 or ev.min() < p['a'] - 1e-8 or ev.max() > p['b'] + 1e-8
         elif what == 'separable':
             dA, dB = p['dA'], p['dB']
             rho = R.rand_separable_dm(dA, dB, k=p['k'], pure_term=p['pure'], seed=seed)
@@ -851,6 +855,52 @@ def run(chk):
         for x in ws:
             out = out + x
         return out
+    # rand_hermitian_matrix(d, eig=(a, b)): U diag(lambda) U^dag with lambda drawn uniformly from [a, b] (the stream contract bounds the draws; U from rand_special_orthogonal_matrix)
+    def hermitian_eig_block(d, a, b):
+        import numqi.random._internal as RI
+        chk.configurations += 1
+        ucalls, Us = [], []
+        Uarb = H.cx_array(f'heU{d}_', (d, d))
+        eg2 = {k_: dict(v_) for k_, v_ in eg.items()}
+        eg2.setdefault('numqi.random._internal', {}).update({'rand_special_orthogonal_matrix': lambda dim, *a_, **k_: Uarb})
+
+        def once():
+            _FRESH[0] = 0
+            TOTAL[0] = 0
+            del ucalls[:]
+            stm = SymStream(f'v<herm{d}>')
+            orig_u = stm.uniform
+
+            def rec_u(low=0.0, high=1.0, size=None):
+                r = orig_u(low, high, size)
+                ucalls.append((low, high, size, r.copy() if hasattr(r, 'copy') else r))
+                return r
+            stm.uniform = rec_u
+            return R.rand_hermitian_matrix(d, eig=(a, b), seed=stm)
+        try:
+            paths, st = H.run_paths(once, [], np_facade=fac, extra_globals=eg2, feas_timeout_ms=1000, max_paths=8)
+        except S.EngineError as e:
+            chk.engine_error(f'rand_hermitian_matrix({d}, eig=({a},{b}))', e)
+            return
+        chk.add_path_stats(st)
+        rp = ('c10v', {'what': 'herm_eig', 'd': d, 'a': a, 'b': b})
+        for pi, path in enumerate(paths):
+            if path.status != 'return':
+                chk.add(f'rand_hermitian_matrix({d}, eig=({a},{b})) raises {type(path.value).__name__}: {path.value}', path.pc + path.facts, ir.FALSE, key='rand_hermitian_matrix raises', replay=rp)
+                continue
+            with path.resume():
+                Hm = A.plain(path.value)
+                ok = len(ucalls) == 1 and (float(ucalls[0][0]), float(ucalls[0][1])) == (float(a), float(b)) and np.shape(ucalls[0][3]) == (d,) and Hm.shape == (d, d)
+                if not ok:
+                    chk.add(f'rand_hermitian_matrix({d}, eig=({a},{b})): the eigenvalues are one uniform draw of size d from [a, b]', path.pc + path.facts, ir.FALSE, key='rand_hermitian_matrix spectrum outside the requested range', replay=rp)
+                    continue
+                lamv = [S.as_sc(x) for x in A.plain(ucalls[0][3])]
+                Up = A.plain(Uarb)
+                ref = mmul(np.array([[S.as_sc(Up[i, j]) * lamv[j] for j in range(d)] for i in range(d)], dtype=object), dagm(Up))
+                chk.add(f'rand_hermitian_matrix({d}, eig=({a},{b})): result == U diag(lambda) U^dag with lambda the uniform draws from [{a}, {b}] (U the matrix returned by rand_special_orthogonal_matrix)',
+                        path.pc + path.facts, ir.band_all(eqm(Hm, ref)), key='rand_hermitian_matrix spectrum outside the requested range', replay=rp)
+    hermitian_eig_block(2, 1, 2)
+    hermitian_eig_block(2, -3, -1)
     separable_block(2, 2, 2, True)
     separable_block(2, 2, 2, False)
     unitary_block(2)
